@@ -143,35 +143,56 @@ func c10R2(p *Prog, r *Report) {
 		r.OK("generator.(*generator).convertTo/no own assignment", p.PosStr(fi.Decl.Pos()), fmt.Sprintf("%d operator(s) emitted, all `!=` (nil guard)", nOps))
 	}
 	// pointer source → nil guard: the returned stmt on the sourcePointer path is []jen.Code{ If(sourceID.Code.Clone().Op("!=").Nil()).Block(stmt...) }
+	// the locals involved are found by what they hold, not by name:
+	// flagObj — the bool set to true under a test of source.Pointer; stmtObj — the statements returned by Struct.Assign
+	var flagObj, stmtObj types.Object
+	setOK := false
+	ast.Inspect(fi.Decl, func(n ast.Node) bool {
+		as, ok := n.(*ast.AssignStmt)
+		if !ok {
+			return true
+		}
+		if len(as.Lhs) == 1 && len(as.Rhs) == 1 && exprString(as.Rhs[0]) == "true" {
+			if id0, ok := as.Lhs[0].(*ast.Ident); ok {
+				for _, g := range guardsOf(stackTo(fi.Decl, as), as) {
+					if g.Cond != nil && !g.Neg && strings.Contains(exprString(g.Cond), "source.Pointer") {
+						flagObj = info.ObjectOf(id0)
+						setOK = true
+					}
+				}
+			}
+		}
+		if len(as.Rhs) == 1 && len(as.Lhs) >= 1 {
+			if call, ok := ast.Unparen(as.Rhs[0]).(*ast.CallExpr); ok {
+				if f, ok := calleeObj(info, call).(*types.Func); ok && isFunc(f, modPath+"/builder", "Struct", "Assign") {
+					if id0, ok := as.Lhs[0].(*ast.Ident); ok {
+						stmtObj = info.ObjectOf(id0)
+					}
+				}
+			}
+		}
+		return true
+	})
+	isObjIdent := func(e ast.Expr, o types.Object) bool {
+		id0, ok := ast.Unparen(e).(*ast.Ident)
+		return ok && o != nil && info.ObjectOf(id0) == o
+	}
 	okGuard := false
 	ast.Inspect(fi.Decl, func(n ast.Node) bool {
 		ifs, ok := n.(*ast.IfStmt)
-		if !ok || exprString(ifs.Cond) != "sourcePointer" || len(ifs.Body.List) != 1 {
+		if !ok || !isObjIdent(ifs.Cond, flagObj) || len(ifs.Body.List) != 1 {
 			return true
 		}
 		as, ok := ifs.Body.List[0].(*ast.AssignStmt)
-		if !ok || exprString(as.Lhs[0]) != "stmt" {
+		if !ok || !isObjIdent(as.Lhs[0], stmtObj) {
 			return true
 		}
 		cl, ok := ast.Unparen(as.Rhs[0]).(*ast.CompositeLit)
 		if !ok || len(cl.Elts) != 1 {
 			return true
 		}
-		if cond, blk, ok := p.nilGuardOf(info, cl.Elts[0]); ok && cond == "sourceID.Code" && strings.HasPrefix(blk, "stmt") {
+		if g := p.nilGuard(info, cl.Elts[0]); g != nil && g.Cond == "sourceID.Code" && len(g.BlockArgs) == 1 && isObjIdent(g.BlockArgs[0], stmtObj) {
 			okGuard = true
-		}
-		return true
-	})
-	// sourcePointer is set exactly when source was a pointer
-	setOK := false
-	ast.Inspect(fi.Decl, func(n ast.Node) bool {
-		as, ok := n.(*ast.AssignStmt)
-		if ok && len(as.Lhs) == 1 && exprString(as.Lhs[0]) == "sourcePointer" && exprString(as.Rhs[0]) == "true" {
-			for _, g := range guardsOf(stackTo(fi.Decl, as), as) {
-				if g.Cond != nil && !g.Neg && strings.Contains(exprString(g.Cond), "source.Pointer") {
-					setOK = true
-				}
-			}
 		}
 		return true
 	})
@@ -881,7 +902,7 @@ func (p *Prog) comparabilityEstablished(fi *FuncInfo, stack []ast.Node, n ast.No
 	sig := fi.Obj.Type().(*types.Signature)
 	idx := -1
 	for i := 0; i < sig.Params().Len(); i++ {
-		if sig.Params().At(i).Name() == x {
+		if paramCanonName(fi, i) == x {
 			idx = i
 		}
 	}
